@@ -5,6 +5,23 @@ sys.path.insert(0, '/verif/lib')
 import props
 
 LEVEL = {
+ "C02": ("Encoder.tla models from_h/encode as coded (staircase test, Gauss-Jordan step machine in Linalg.tla, dense and accumulator arms); TLC checks on every binary "
+         "matrix up to 3x4 (3x5 thorough) that the verdict equals kernel-brute-force invertibility of the tail and that every codeword is systematic, satisfies H and is linear. "
+         "The real encoder is bound by trace validation: the same exhaustive matrices plus random classes up to 12x30 are run through Encoder::from_h/encode and TLC judges every "
+         "(verdict, message, codeword) with the property-level operators FromHOK/EncOK (witness-checked for r > 7).",
+         "TLC + Json/IOUtils; harness only converts matrices/bit vectors; oracle witnesses for r > 7 are verified by TLC.",
+         "TLA+ model checking of the elimination step machine + trace validation of the real encoder", "5 C02"),
+ "C09": ("Systematic.tla models row_echelon_form (step machine) and the pivot scan with its assertions; TLC checks SysOK (error iff rank deficient, by row-space cardinality; "
+         "column permutation; invertible tail; encoder accepts) and absence of panics on every matrix up to 3x4 (3x5 thorough); the as-found assertion placement is kept as a "
+         "negative configuration that TLC must reject. The real parity_to_systematic is bound by trace validation on the exhaustive set plus random classes up to 12x30.",
+         "TLC + Json/IOUtils; oracle witnesses for r > 7 verified by TLC.",
+         "TLA+ model checking + trace validation", "5 C09"),
+ "C11": ("Tanner.tla defines distances, local girth (node deletion) and girth declaratively; BfsAlgo.tla models the FIFO of path heads of bfs.rs step by step. TLC checks on every "
+         "bipartite graph up to 3x3 (3x4 thorough), every root and 7 bounds that the algorithm equals the declarative quantities (the as-found first-collision rule is a negative "
+         "configuration). The real bfs/girth/girth_at_node(_with_max) are bound by trace validation: exhaustive small graphs and random graphs up to 8x10, every result recomputed by TLC "
+         "from the declarative definitions.",
+         "TLC + Json/IOUtils; harness reports results verbatim.",
+         "TLA+ model checking of the BFS step machine against declarative graph definitions + trace validation", "5 C11"),
  "C17": ("Sparse.tla (two mirrored adjacency lists, the ten mutators as coded) is model-checked exhaustively against SparseSet.tla "
          "(set of positions): Mirror, NoDup, refinement, weights, no-op equality on all histories of a 2x3 matrix. The real SparseMatrix is bound "
          "to SparseSet by trace validation in both directions: TLC-simulated behaviours replayed into the code and random histories recorded from it, "
